@@ -403,3 +403,567 @@ fn rt_layer(l: u16)
     let d2 = a2.opcode_type(Some(b2));
     assert(d2 == OpCodeType::BaseLayer(l));
 }
+
+// =========================================================================================
+// A3: evaluate_boolean == the meaning of the written expression, for every well-formed
+// opcode stream of every size and nesting depth <= 8.
+// =========================================================================================
+//@ item keyberon/src/layout.rs struct HistoricalEvent
+
+//@ raw
+// R3: the third-party container is resolved to this module, which carries its ASSUMED contract
+// (arraydeque 0.5.1, behavior::Saturating: push_back on a full deque returns Err and changes
+// nothing; pop_back returns the last element).
+pub mod arraydeque {
+    use vstd::prelude::*;
+    pub mod behavior {
+        pub struct Saturating;
+    }
+    pub struct CapacityError<T> { pub element: T }
+    #[verifier::external_body]
+    #[verifier::reject_recursive_types(T)]
+    #[verifier::reject_recursive_types(B)]
+    pub struct ArrayDeque<T, const N: usize, B> {
+        v: Vec<T>,
+        b: core::marker::PhantomData<B>,
+    }
+    impl<T, const N: usize, B> ArrayDeque<T, N, B> {
+        pub uninterp spec fn view(&self) -> Seq<T>;
+        #[verifier::external_body]
+        pub fn new() -> (r: Self)
+            ensures r.view().len() == 0,
+        { unimplemented!() }
+        #[verifier::external_body]
+        pub fn push_back(&mut self, x: T) -> (r: Result<(), CapacityError<T>>)
+            ensures
+                old(self).view().len() < N ==> r.is_ok() && final(self).view() == old(self).view().push(x),
+                old(self).view().len() >= N ==> r.is_err() && final(self).view() == old(self).view(),
+        { unimplemented!() }
+        #[verifier::external_body]
+        pub fn pop_back(&mut self) -> (r: Option<T>)
+            ensures
+                old(self).view().len() == 0 ==> r.is_none() && final(self).view() == old(self).view(),
+                old(self).view().len() > 0 ==> r == Some(old(self).view().last()) && final(self).view() == old(self).view().drop_last(),
+        { unimplemented!() }
+    }
+}
+
+pub assume_specification<T: Copy>[ Option::<&T>::copied ](o: Option<&T>) -> (r: Option<T>)
+    ensures
+        o.is_none() ==> r.is_none(),
+        o.is_some() ==> r == Some(*o.unwrap()),
+;
+
+// ---- the environment a condition is evaluated in (what the five iterators yield) ----------
+ghost struct Env {
+    keys: Seq<KeyCode>,                         // active keys
+    inputs: Seq<KCoord>,                        // active input coordinates
+    hkeys: Seq<HistoricalEvent<KeyCode>>,       // key history, most recent first
+    hinputs: Seq<HistoricalEvent<KCoord>>,      // input history, most recent first
+    layers: Seq<u16>,                           // layer order, most recently activated first
+    default_layer: u16,
+}
+
+// ---- meaning of each leaf, from the user documentation of `switch` ------------------------
+spec fn m_key(env: Env, kc: u16) -> bool { exists|i: int| 0 <= i < env.keys.len() && #[trigger] env.keys[i] as u16 == kc }
+spec fn m_key_history(env: Env, kc: u16, back: u8) -> bool { back < env.hkeys.len() && env.hkeys[back as int].event as u16 == kc }
+spec fn m_ticks_gt(env: Env, nth: u8, t: u16) -> bool { nth < env.hkeys.len() && env.hkeys[nth as int].ticks_since_occurrence > t }
+spec fn m_ticks_lt(env: Env, nth: u8, t: u16) -> bool { nth < env.hkeys.len() && !(env.hkeys[nth as int].ticks_since_occurrence > t) }
+spec fn m_input(env: Env, c: KCoord) -> bool { exists|i: int| 0 <= i < env.inputs.len() && #[trigger] env.inputs[i] == c }
+spec fn m_input_history(env: Env, c: KCoord, back: u8) -> bool { back < env.hinputs.len() && env.hinputs[back as int].event == c }
+spec fn m_layer(env: Env, l: u16) -> bool { env.layers.len() > 0 && env.layers[0] == l }
+spec fn m_base_layer(env: Env, l: u16) -> bool { env.default_layer == l }
+
+// R5: the eight iterator expressions of the leaf arms are replaced by these calls.  Their
+// bodies are NOT verified here: that each real iterator expression computes exactly this
+// meaning is what the Kani harnesses c10_b_leaf_* check on the unextracted function.
+#[verifier::external_body]
+fn leaf_key(Ghost(env): Ghost<Env>, kc: u16) -> (r: bool) ensures r == m_key(env, kc) { unimplemented!() }
+#[verifier::external_body]
+fn leaf_key_history(Ghost(env): Ghost<Env>, hkc: HistoricalKeyCode) -> (r: bool) ensures r == m_key_history(env, hkc.key_code, hkc.how_far_back) { unimplemented!() }
+#[verifier::external_body]
+fn leaf_ticks_lt(Ghost(env): Ghost<Env>, tsnk: TicksSinceNthKey) -> (r: bool) ensures r == m_ticks_lt(env, tsnk.nth_key, tsnk.ticks_since) { unimplemented!() }
+#[verifier::external_body]
+fn leaf_ticks_gt(Ghost(env): Ghost<Env>, tsnk: TicksSinceNthKey) -> (r: bool) ensures r == m_ticks_gt(env, tsnk.nth_key, tsnk.ticks_since) { unimplemented!() }
+#[verifier::external_body]
+fn leaf_input(Ghost(env): Ghost<Env>, coord: KCoord) -> (r: bool) ensures r == m_input(env, coord) { unimplemented!() }
+#[verifier::external_body]
+fn leaf_input_history(Ghost(env): Ghost<Env>, hki: HistoricalInput) -> (r: bool) ensures r == m_input_history(env, hki.input, hki.how_far_back) { unimplemented!() }
+#[verifier::external_body]
+fn leaf_layer(Ghost(env): Ghost<Env>, layer: u16) -> (r: bool) ensures r == m_layer(env, layer) { unimplemented!() }
+
+
+// ---- the opcode stream as a prefix encoding -------------------------------------------------
+spec fn w(ops: Seq<OpCode>, i: int) -> u16 { ops[i].0 }
+spec fn nxt(ops: Seq<OpCode>, i: int) -> Option<OpCode> { if i + 1 < ops.len() { Some(ops[i + 1]) } else { None } }
+spec fn is_op(ops: Seq<OpCode>, i: int) -> bool { is_boolop_word(w(ops, i)) }
+spec fn op_end(ops: Seq<OpCode>, i: int) -> int { (w(ops, i) & 0x0FFF) as int }
+spec fn op_kind(ops: Seq<OpCode>, i: int) -> BooleanOperator { boolop_of(w(ops, i)) }
+spec fn leaf_width(ops: Seq<OpCode>, i: int) -> int { if is_two_word(w(ops, i)) { 2 } else { 1 } }
+/// index of the operand that follows the operand starting at i
+spec fn step(ops: Seq<OpCode>, i: int) -> int { if is_op(ops, i) { op_end(ops, i) } else { i + leaf_width(ops, i) } }
+
+/// [i, end) is a well-formed operand list whose operators nest at most d deep; every operator
+/// has at least one operand (the property excludes empty operators) and ends inside its parent
+spec fn wf_list(ops: Seq<OpCode>, i: int, end: int, d: int) -> bool
+    decreases end - i,
+{
+    if i >= end {
+        i == end
+    } else {
+        &&& 0 <= i && end <= ops.len()
+        &&& word_ok(w(ops, i), nxt(ops, i))
+        &&& if is_op(ops, i) {
+                &&& d > 0
+                &&& i + 1 < op_end(ops, i) <= end
+                &&& wf_list(ops, i + 1, op_end(ops, i), d - 1)
+                &&& wf_list(ops, op_end(ops, i), end, d)
+            } else {
+                &&& i + leaf_width(ops, i) <= end
+                &&& wf_list(ops, i + leaf_width(ops, i), end, d)
+            }
+    }
+}
+
+/// meaning of the leaf starting at i
+spec fn leaf_val(ops: Seq<OpCode>, env: Env, i: int) -> bool {
+    match spec_decode(w(ops, i), nxt(ops, i)) {
+        OpCodeType::BooleanOp(_) => false,
+        OpCodeType::KeyCode(kc) => m_key(env, kc),
+        OpCodeType::HistoricalKeyCode(h) => m_key_history(env, h.key_code, h.how_far_back),
+        OpCodeType::Input(c) => m_input(env, c),
+        OpCodeType::HistoricalInput(h) => m_input_history(env, h.input, h.how_far_back),
+        OpCodeType::TicksSinceLessThan(t) => m_ticks_lt(env, t.nth_key, t.ticks_since),
+        OpCodeType::TicksSinceGreaterThan(t) => m_ticks_gt(env, t.nth_key, t.ticks_since),
+        OpCodeType::Layer(l) => m_layer(env, l),
+        OpCodeType::BaseLayer(l) => m_base_layer(env, l),
+    }
+}
+
+/// mode 0: "some operand in [i, end) is true";  mode 1: "every operand in [i, end) is true".
+/// or = some, and = every, not = none (the documented meaning of `not` with several operands).
+spec fn ev(ops: Seq<OpCode>, env: Env, mode: int, i: int, end: int) -> bool
+    decreases end - i,
+{
+    if i >= end || !(i < step(ops, i) <= end) {
+        mode == 1
+    } else {
+        let v = if is_op(ops, i) {
+            let e = op_end(ops, i);
+            match op_kind(ops, i) {
+                Or => ev(ops, env, 0, i + 1, e),
+                And => ev(ops, env, 1, i + 1, e),
+                Not => !ev(ops, env, 0, i + 1, e),
+            }
+        } else {
+            leaf_val(ops, env, i)
+        };
+        if mode == 0 { v || ev(ops, env, 0, step(ops, i), end) } else { v && ev(ops, env, 1, step(ops, i), end) }
+    }
+}
+spec fn fval(ops: Seq<OpCode>, env: Env, op: BooleanOperator, s: int, e: int) -> bool {
+    match op { Or => ev(ops, env, 0, s, e), And => ev(ops, env, 1, s, e), Not => !ev(ops, env, 0, s, e) }
+}
+/// value of the single operand that starts at p
+spec fn opval(ops: Seq<OpCode>, env: Env, p: int) -> bool { ev(ops, env, 0, p, step(ops, p)) }
+/// a switch case's condition: implicit `or` over the top-level list; the empty list is true
+spec fn sem_top(ops: Seq<OpCode>, env: Env) -> bool { if ops.len() == 0 { true } else { ev(ops, env, 0, 0, ops.len() as int) } }
+
+/// p is an operand boundary of the list starting at s
+spec fn reach(ops: Seq<OpCode>, s: int, p: int) -> bool
+    decreases p - s,
+{
+    if s == p { true } else if s > p { false } else if s < step(ops, s) && step(ops, s) <= p { reach(ops, step(ops, s), p) } else { false }
+}
+
+proof fn lemma_wf_reach(ops: Seq<OpCode>, i: int, end: int, d: int)
+    requires wf_list(ops, i, end, d),
+    ensures reach(ops, i, end), i <= end,
+    decreases end - i,
+{
+    if i < end {
+        lemma_wf_reach(ops, step(ops, i), end, d);
+    }
+}
+proof fn lemma_reach_trans(ops: Seq<OpCode>, s: int, p: int, q: int)
+    requires reach(ops, s, p), reach(ops, p, q),
+    ensures reach(ops, s, q), s <= p <= q,
+    decreases p - s,
+{
+    lemma_reach_le(ops, s, p);
+    lemma_reach_le(ops, p, q);
+    if s < p {
+        lemma_reach_trans(ops, step(ops, s), p, q);
+    }
+}
+proof fn lemma_reach_le(ops: Seq<OpCode>, s: int, p: int)
+    requires reach(ops, s, p),
+    ensures s <= p,
+    decreases p - s,
+{
+    if s < p { lemma_reach_le(ops, step(ops, s), p); }
+}
+/// well-formedness is inherited by every boundary
+proof fn lemma_wf_at(ops: Seq<OpCode>, s: int, p: int, end: int, d: int)
+    requires wf_list(ops, s, end, d), reach(ops, s, p), p <= end,
+    ensures wf_list(ops, p, end, d),
+    decreases p - s,
+{
+    if s < p {
+        lemma_reach_le(ops, step(ops, s), p);
+        lemma_wf_at(ops, step(ops, s), p, end, d);
+    }
+}
+/// splitting a list at a boundary
+proof fn lemma_split(ops: Seq<OpCode>, env: Env, mode: int, s: int, p: int, e: int)
+    requires reach(ops, s, p), reach(ops, p, e), mode == 0 || mode == 1,
+    ensures
+        mode == 0 ==> ev(ops, env, 0, s, e) == (ev(ops, env, 0, s, p) || ev(ops, env, 0, p, e)),
+        mode == 1 ==> ev(ops, env, 1, s, e) == (ev(ops, env, 1, s, p) && ev(ops, env, 1, p, e)),
+    decreases p - s,
+{
+    lemma_reach_le(ops, s, p);
+    lemma_reach_le(ops, p, e);
+    if s < p {
+        let t = step(ops, s);
+        lemma_reach_le(ops, t, p);
+        lemma_split(ops, env, mode, t, p, e);
+    }
+}
+/// the operand at p is an operator: its value is the value of its frame
+proof fn lemma_opval_op(ops: Seq<OpCode>, env: Env, p: int)
+    requires is_op(ops, p), p + 1 < op_end(ops, p),
+    ensures opval(ops, env, p) == fval(ops, env, op_kind(ops, p), p + 1, op_end(ops, p)),
+{
+    reveal_with_fuel(ev, 2);
+}
+proof fn lemma_opval_leaf(ops: Seq<OpCode>, env: Env, p: int)
+    requires !is_op(ops, p),
+    ensures opval(ops, env, p) == leaf_val(ops, env, p),
+{
+    reveal_with_fuel(ev, 2);
+}
+
+// ---- ghost view of the evaluator's explicit stack ------------------------------------------
+ghost struct Frame { op: BooleanOperator, start: int, end: int }
+
+/// operands of a frame passed so far were non-deciding
+spec fn pre_ok(ops: Seq<OpCode>, env: Env, op: BooleanOperator, s: int, p: int) -> bool {
+    match op { Or => !ev(ops, env, 0, s, p), And => ev(ops, env, 1, s, p), Not => !ev(ops, env, 0, s, p) }
+}
+spec fn frame_link(ops: Seq<OpCode>, env: Env, outer: Frame, inner: Frame) -> bool {
+    let pos = inner.start - 1;
+    &&& inner.start < inner.end
+    &&& reach(ops, outer.start, pos) && pos < outer.end
+    &&& is_op(ops, pos) && op_kind(ops, pos) == inner.op && op_end(ops, pos) == inner.end
+    &&& pre_ok(ops, env, outer.op, outer.start, pos)
+}
+spec fn frames_ok(ops: Seq<OpCode>, env: Env, fr: Seq<Frame>) -> bool {
+    &&& 1 <= fr.len() <= 9
+    &&& fr[0] == (Frame { op: Or, start: 0, end: ops.len() as int })
+    &&& forall|j: int| 0 <= j < fr.len() ==> 0 <= (#[trigger] fr[j]).start <= fr[j].end <= ops.len() && wf_list(ops, fr[j].start, fr[j].end, 8 - j)
+    &&& forall|j: int| 1 <= j < fr.len() ==> frame_link(ops, env, fr[j - 1], #[trigger] fr[j])
+}
+spec fn stack_ok(fr: Seq<Frame>, stack: Seq<OperatorAndEndIndex>) -> bool {
+    &&& stack.len() == fr.len() - 1
+    &&& forall|j: int| 0 <= j < stack.len() ==> (#[trigger] stack[j]).op == fr[j].op && stack[j].idx as int == fr[j].end
+}
+spec fn inv(ops: Seq<OpCode>, env: Env, fr: Seq<Frame>, stack: Seq<OperatorAndEndIndex>, cop: BooleanOperator, ce: int, ci: int, ret: bool) -> bool {
+    &&& frames_ok(ops, env, fr) && stack_ok(fr, stack)
+    &&& cop == fr.last().op && ce == fr.last().end
+    &&& reach(ops, fr.last().start, ci) && ci <= ce
+    &&& (ci < ce ==> pre_ok(ops, env, cop, fr.last().start, ci))
+    &&& (ci == ce && fr.last().start < ce ==> ret == fval(ops, env, cop, fr.last().start, ce))
+}
+
+proof fn lemma_decode_kind(w: u16, next: Option<OpCode>)
+    requires word_ok(w, next),
+    ensures
+        (spec_decode(w, next) is BooleanOp) == is_boolop_word(w),
+        is_boolop_word(w) ==> spec_decode(w, next) == OpCodeType::BooleanOp(OperatorAndEndIndex { op: boolop_of(w), idx: (w & 0x0FFF) as usize }),
+        (spec_decode(w, next) is Input || spec_decode(w, next) is HistoricalInput || spec_decode(w, next) is Layer || spec_decode(w, next) is BaseLayer) == is_two_word(w),
+        is_boolop_word(w) ==> !is_two_word(w),
+{
+    lemma_bits_classes(w);
+}
+
+/// with an empty stack the current frame is the top-level one
+proof fn lemma_top(ops: Seq<OpCode>, env: Env, fr: Seq<Frame>, stack: Seq<OperatorAndEndIndex>, cop: BooleanOperator, ce: int, ci: int, ret: bool)
+    requires inv(ops, env, fr, stack, cop, ce, ci, ret),
+    ensures
+        stack.len() == 0 ==> ce == ops.len() && cop == Or,
+        ce <= ops.len(), 0 <= ci,
+        ci < ce ==> word_ok(w(ops, ci), nxt(ops, ci)) && step(ops, ci) <= ce && ci < step(ops, ci),
+        ci < ce && is_op(ops, ci) ==> stack.len() < 8,
+{
+    let k = fr.len() - 1;
+    assert(fr.last() == fr[k]);
+    lemma_reach_le(ops, fr[k].start, ci);
+    if ci < ce {
+        lemma_wf_at(ops, fr[k].start, ci, ce, 8 - k);
+    }
+}
+
+/// entering a nested operator at ci
+proof fn lemma_push(ops: Seq<OpCode>, env: Env, fr: Seq<Frame>, stack: Seq<OperatorAndEndIndex>, cop: BooleanOperator, ce: int, ci: int, ret: bool)
+    requires inv(ops, env, fr, stack, cop, ce, ci, ret), ci < ce, is_op(ops, ci), ce < 0x1000_0000,
+    ensures
+        stack.len() < 8,
+        inv(ops, env,
+            fr.push(Frame { op: op_kind(ops, ci), start: ci + 1, end: op_end(ops, ci) }),
+            stack.push(OperatorAndEndIndex { op: cop, idx: ce as usize }),
+            op_kind(ops, ci), op_end(ops, ci), ci + 1, ret),
+{
+    let k = fr.len() - 1;
+    assert(fr.last() == fr[k]);
+    lemma_reach_le(ops, fr[k].start, ci);
+    lemma_wf_at(ops, fr[k].start, ci, ce, 8 - k);
+    let nf = Frame { op: op_kind(ops, ci), start: ci + 1, end: op_end(ops, ci) };
+    let fr2 = fr.push(nf);
+    let st2 = stack.push(OperatorAndEndIndex { op: cop, idx: ce as usize });
+    assert(fr2.last() == nf);
+    assert forall|j: int| 0 <= j < fr2.len() implies 0 <= (#[trigger] fr2[j]).start <= fr2[j].end <= ops.len() && wf_list(ops, fr2[j].start, fr2[j].end, 8 - j) by {
+        if j < fr.len() { assert(fr2[j] == fr[j]); }
+    }
+    assert forall|j: int| 1 <= j < fr2.len() implies frame_link(ops, env, fr2[j - 1], #[trigger] fr2[j]) by {
+        if j < fr.len() { assert(fr2[j] == fr[j]); assert(fr2[j - 1] == fr[j - 1]); }
+        else { assert(fr2[j - 1] == fr[k]); }
+    }
+    assert forall|j: int| 0 <= j < st2.len() implies (#[trigger] st2[j]).op == fr2[j].op && st2[j].idx as int == fr2[j].end by {
+        if j < stack.len() { assert(st2[j] == stack[j]); assert(fr2[j] == fr[j]); }
+        else { assert(fr2[j] == fr[k]); }
+    }
+    reveal_with_fuel(ev, 1);
+    assert(reach(ops, ci + 1, ci + 1));
+}
+
+/// a leaf at ci has just been evaluated to v
+proof fn lemma_leaf_step(ops: Seq<OpCode>, env: Env, fr: Seq<Frame>, stack: Seq<OperatorAndEndIndex>, cop: BooleanOperator, ce: int, ci: int, v: bool)
+    requires inv(ops, env, fr, stack, cop, ce, ci, v), ci < ce, !is_op(ops, ci), v == leaf_val(ops, env, ci),
+    ensures ({
+        let r = if cop == Not { !v } else { v };
+        let short = (r && cop == Or) || (!r && (cop == And || cop == Not));
+        let q = ci + leaf_width(ops, ci);
+        &&& q <= ce
+        &&& (short ==> inv(ops, env, fr, stack, cop, ce, ce, r))
+        &&& (!short ==> inv(ops, env, fr, stack, cop, ce, q, r))
+    }),
+{
+    let k = fr.len() - 1;
+    let s = fr[k].start;
+    assert(fr.last() == fr[k]);
+    lemma_reach_le(ops, s, ci);
+    lemma_wf_at(ops, s, ci, ce, 8 - k);
+    let q = step(ops, ci);
+    assert(q == ci + leaf_width(ops, ci));
+    assert(reach(ops, ci, q)) by { reveal_with_fuel(reach, 2); }
+    lemma_reach_trans(ops, s, ci, q);
+    lemma_wf_reach(ops, q, ce, 8 - k);
+    lemma_reach_trans(ops, s, q, ce);
+    lemma_opval_leaf(ops, env, ci);
+    // value of [s, q) and of [s, ce)
+    lemma_split(ops, env, 0, s, ci, q);
+    lemma_split(ops, env, 1, s, ci, q);
+    lemma_split(ops, env, 0, s, q, ce);
+    lemma_split(ops, env, 1, s, q, ce);
+    lemma_and_single(ops, env, ci);
+    if q == ce {
+        assert(ev(ops, env, 0, q, ce) == false);
+        assert(ev(ops, env, 1, q, ce) == true);
+    }
+}
+/// the every-of over a single operand is that operand's value
+proof fn lemma_and_single(ops: Seq<OpCode>, env: Env, p: int)
+    requires p < step(ops, p),
+    ensures ev(ops, env, 1, p, step(ops, p)) == opval(ops, env, p),
+{
+    reveal_with_fuel(ev, 2);
+}
+
+/// the current frame is finished (ci == ce) and the enclosing one has just been popped
+proof fn lemma_pop(ops: Seq<OpCode>, env: Env, fr: Seq<Frame>, stack: Seq<OperatorAndEndIndex>, cop: BooleanOperator, ce: int, ci: int, ret: bool)
+    requires inv(ops, env, fr, stack, cop, ce, ci, ret), ci >= ce, stack.len() > 0,
+    ensures ({
+        let top = stack.last();
+        let op1 = top.op;
+        let e1 = top.idx as int;
+        let short = (ret && (op1 == Or || op1 == Not)) || (!ret && op1 == And) || ci >= e1;
+        let r1 = if op1 == Not { !ret } else { ret };
+        &&& ci == ce && ci <= e1
+        &&& (short ==> inv(ops, env, fr.drop_last(), stack.drop_last(), op1, e1, e1, r1))
+        &&& (!short ==> inv(ops, env, fr.drop_last(), stack.drop_last(), op1, e1, ci, ret))
+    }),
+{
+    let k = fr.len() - 1;
+    assert(fr.last() == fr[k]);
+    assert(stack.last() == stack[k - 1]);
+    let inner = fr[k];
+    let outer = fr[k - 1];
+    assert(frame_link(ops, env, fr[k - 1], fr[k]));
+    let pos = inner.start - 1;
+    let s = outer.start;
+    let e1 = outer.end;
+    let fr1 = fr.drop_last();
+    let st1 = stack.drop_last();
+    assert(fr1.last() == outer);
+    assert forall|j: int| 0 <= j < fr1.len() implies 0 <= (#[trigger] fr1[j]).start <= fr1[j].end <= ops.len() && wf_list(ops, fr1[j].start, fr1[j].end, 8 - j) by {
+        assert(fr1[j] == fr[j]);
+    }
+    assert forall|j: int| 1 <= j < fr1.len() implies frame_link(ops, env, fr1[j - 1], #[trigger] fr1[j]) by {
+        assert(fr1[j] == fr[j]); assert(fr1[j - 1] == fr[j - 1]);
+    }
+    assert forall|j: int| 0 <= j < st1.len() implies (#[trigger] st1[j]).op == fr1[j].op && st1[j].idx as int == fr1[j].end by {
+        assert(st1[j] == stack[j]); assert(fr1[j] == fr[j]);
+    }
+    // the nested operator is the operand at pos of the outer frame; its value is ret
+    lemma_opval_op(ops, env, pos);
+    assert(opval(ops, env, pos) == ret);
+    let q = step(ops, pos);
+    assert(q == ce);
+    lemma_wf_at(ops, s, pos, e1, 8 - (k - 1));
+    assert(q <= e1);
+    assert(reach(ops, pos, q)) by { reveal_with_fuel(reach, 2); }
+    lemma_reach_trans(ops, s, pos, q);
+    lemma_wf_reach(ops, q, e1, 8 - (k - 1));
+    lemma_reach_trans(ops, s, q, e1);
+    lemma_split(ops, env, 0, s, pos, q);
+    lemma_split(ops, env, 1, s, pos, q);
+    lemma_split(ops, env, 0, s, q, e1);
+    lemma_split(ops, env, 1, s, q, e1);
+    lemma_and_single(ops, env, pos);
+    if q == e1 {
+        assert(ev(ops, env, 0, q, e1) == false);
+        assert(ev(ops, env, 1, q, e1) == true);
+    }
+}
+
+/// after the main loop every open frame ends at the end of the stream; unwinding one frame
+proof fn lemma_drain(ops: Seq<OpCode>, env: Env, fr: Seq<Frame>, stack: Seq<OperatorAndEndIndex>, cop: BooleanOperator, ret: bool)
+    requires inv(ops, env, fr, stack, cop, ops.len() as int, ops.len() as int, ret), stack.len() > 0, ops.len() > 0,
+    ensures ({
+        let top = stack.last();
+        let r1 = if top.op == Not { !ret } else { ret };
+        &&& top.idx as int == ops.len()
+        &&& inv(ops, env, fr.drop_last(), stack.drop_last(), top.op, ops.len() as int, ops.len() as int, r1)
+    }),
+{
+    let k = fr.len() - 1;
+    assert(fr.last() == fr[k]);
+    assert(stack.last() == stack[k - 1]);
+    assert(frame_link(ops, env, fr[k - 1], fr[k]));
+    // nesting: the outer frame ends no earlier than the inner one
+    let pos = fr[k].start - 1;
+    lemma_wf_at(ops, fr[k - 1].start, pos, fr[k - 1].end, 8 - (k - 1));
+    assert(fr[k - 1].end == ops.len());
+    lemma_pop(ops, env, fr, stack, cop, ops.len() as int, ops.len() as int, ret);
+}
+
+//@ raw
+proof fn lemma_done(ops: Seq<OpCode>, env: Env, fr: Seq<Frame>, stack: Seq<OperatorAndEndIndex>, cop: BooleanOperator, ret: bool)
+    requires inv(ops, env, fr, stack, cop, ops.len() as int, ops.len() as int, ret), stack.len() == 0, ops.len() > 0,
+    ensures ret == sem_top(ops, env),
+{
+    assert(fr.last() == fr[0]);
+}
+
+//@ item keyberon/src/action/switch.rs fn evaluate_boolean
+//@@ ret result
+//@@ sig R5sig `key_codes: impl Iterator<Item = KeyCode> + Clone,\n    inputs: impl Iterator<Item = KCoord> + Clone,\n    historical_keys: impl Iterator<Item = HistoricalEvent<KeyCode>> + Clone,\n    historical_inputs: impl Iterator<Item = HistoricalEvent<KCoord>> + Clone,\n    layers: impl Iterator<Item = u16> + Clone,` => `Ghost(env): Ghost<Env>,`
+//@@ sub R2 2 `(current_op, current_end_index) = (operator.op, operator.idx);` => `current_op = operator.op; current_end_index = operator.idx;`
+//@@ resub R3 1 /= Default::default\(\);/ => `= arraydeque::ArrayDeque::new();`
+//@@ sub R5 1 `key_codes.clone().any(|kc_input| kc_input as u16 == kc)` => `leaf_key(Ghost(env), kc)`
+//@@ resub R5 1 /historical_keys\s*\.clone\(\)\s*\.nth\(hkc\.how_far_back as usize\)\s*\.map\(\|he\| he\.event as u16 == hkc\.key_code\)\s*\.unwrap_or\(false\)/ => `leaf_key_history(Ghost(env), hkc)`
+//@@ resub R5 1 /historical_keys\s*\.clone\(\)\s*\.nth\(tsnk\.nth_key\.into\(\)\)\s*\.map\(\|he\| he\.ticks_since_occurrence <= tsnk\.ticks_since\)\s*\.unwrap_or\(false\)/ => `leaf_ticks_lt(Ghost(env), tsnk)`
+//@@ resub R5 1 /historical_keys\s*\.clone\(\)\s*\.nth\(tsnk\.nth_key\.into\(\)\)\s*\.map\(\|he\| he\.ticks_since_occurrence > tsnk\.ticks_since\)\s*\.unwrap_or\(false\)/ => `leaf_ticks_gt(Ghost(env), tsnk)`
+//@@ sub R5 1 `inputs.clone().any(|c| c == coord)` => `leaf_input(Ghost(env), coord)`
+//@@ resub R5 1 /historical_inputs\s*\.clone\(\)\s*\.nth\(hki\.how_far_back as usize\)\s*\.map\(\|he\| he\.event == hki\.input\)\s*\.unwrap_or\(false\)/ => `leaf_input_history(Ghost(env), hki)`
+//@@ sub R5 1 `layers.clone().next().map(|l| l == layer).unwrap_or(false)` => `leaf_layer(Ghost(env), layer)`
+//@@ spec
+    requires
+        // what the parser promises for every compiled condition: a well-formed prefix encoding,
+        // operators nested at most 8 deep, each with at least one operand
+        bool_expr@.len() < 0x1000,
+        wf_list(bool_expr@, 0, bool_expr@.len() as int, 8),
+        env.default_layer == default_layer,
+    ensures
+        // the result is the meaning of the written condition
+        result == sem_top(bool_expr@, env),
+//@@ before 1 `while current_index < bool_expr.len() {`
+    let ghost ops = bool_expr@;
+    let ghost mut fr: Seq<Frame> = seq![Frame { op: Or, start: 0, end: ops.len() as int }];
+    let ghost mut ci0: int = 0;
+    proof {
+        reveal_with_fuel(ev, 1);
+        assert(reach(ops, 0, 0));
+        assert(fr.last() == fr[0]);
+        assert(inv(ops, env, fr, stack@, current_op, current_end_index as int, current_index as int, ret));
+    }
+//@@ loop 1
+        invariant
+            ops == bool_expr@, ops.len() < 0x1000, env.default_layer == default_layer,
+            current_end_index <= bool_expr.len(),
+            inv(ops, env, fr, stack@, current_op, current_end_index as int, current_index as int, ret),
+            ops.len() == 0 ==> ret,
+        ensures
+            current_index >= bool_expr.len(),
+        decreases bool_expr.len() - current_index, stack@.len(),
+//@@ before 1 `match stack.pop_back() {`
+            proof {
+                lemma_top(ops, env, fr, stack@, current_op, current_end_index as int, current_index as int, ret);
+                assert(stack@.len() > 0);
+                lemma_pop(ops, env, fr, stack@, current_op, current_end_index as int, current_index as int, ret);
+            }
+            let ghost old_stack = stack@;
+//@@ before 1 `if matches!((ret, current_op),`
+            proof {
+                fr = fr.drop_last();
+                assert(stack@ == old_stack.drop_last());
+            }
+//@@ before 1 `match bool_expr[current_index].opcode_type(`
+        proof {
+            lemma_top(ops, env, fr, stack@, current_op, current_end_index as int, current_index as int, ret);
+            ci0 = current_index as int;
+            lemma_decode_kind(w(ops, ci0), nxt(ops, ci0));
+        }
+//@@ before 1 `let res = stack.push_back(OperatorAndEndIndex {`
+                proof {
+                    lemma_push(ops, env, fr, stack@, current_op, current_end_index as int, current_index as int, ret);
+                    fr = fr.push(Frame { op: op_kind(ops, ci0), start: ci0 + 1, end: op_end(ops, ci0) });
+                }
+//@@ before 2 `if current_op == Not {`
+        proof {
+            assert(!is_op(ops, ci0));
+            assert(ret == leaf_val(ops, env, ci0));
+            assert(current_index as int == ci0 + leaf_width(ops, ci0) - 1);
+            lemma_leaf_step(ops, env, fr, stack@, current_op, current_end_index as int, ci0, ret);
+        }
+//@@ before 1 `while let Some(OperatorAndEndIndex { op, .. }) = stack.pop_back() {`
+    let ghost mut gst = stack@;
+    proof {
+        if ops.len() > 0 {
+            lemma_top(ops, env, fr, stack@, current_op, current_end_index as int, current_index as int, ret);
+            if stack@.len() == 0 {
+                lemma_done(ops, env, fr, stack@, current_op, ret);
+            }
+        }
+    }
+//@@ loop 2
+        invariant
+            ops == bool_expr@, gst == stack@,
+            ops.len() == 0 ==> ret && stack@.len() == 0,
+            ops.len() > 0 ==> exists|cop: BooleanOperator| inv(ops, env, fr, stack@, cop, ops.len() as int, ops.len() as int, ret),
+            ops.len() > 0 && stack@.len() == 0 ==> ret == sem_top(ops, env),
+        ensures
+            stack@.len() == 0,
+        decreases stack@.len(),
+//@@ before 1 `if op == Not {`
+        proof {
+            let cop = choose|cop: BooleanOperator| inv(ops, env, fr, gst, cop, ops.len() as int, ops.len() as int, ret);
+            lemma_drain(ops, env, fr, gst, cop, ret);
+            let r1 = if op == Not { !ret } else { ret };
+            fr = fr.drop_last();
+            gst = stack@;
+            if stack@.len() == 0 {
+                lemma_done(ops, env, fr, stack@, op, r1);
+            }
+        }
